@@ -99,6 +99,17 @@ def as_block(v) -> Block:
 def block_terms(sp: Space, b: Block):
     """{block key: sorted list of (coef, canonical net string)} and the partition strings."""
     out = {}
+    # segments of size exactly 0 hold no entries: drop them (and the blocks inside) before comparing
+    keep = []
+    for p_ in b.parts:
+        idx = [j for j, x in enumerate(p_) if sp.facts.norm(x) != ZERO]
+        keep.append({j: n for n, j in enumerate(idx)})
+    if any(len(k) != len(p_) for k, p_ in zip(keep, b.parts)):
+        nb = {}
+        for key, d in b.blocks.items():
+            if all(key[a] in keep[a] for a in range(len(key))):
+                nb[tuple(keep[a][key[a]] for a in range(len(key)))] = d
+        b = Block(sp, [[x for j, x in enumerate(p_) if j in keep[a]] for a, p_ in enumerate(b.parts)], nb)
     for key, d in b.blocks.items():
         lst = []
         for t in d.terms:
